@@ -26,7 +26,7 @@ def main():
             elif rc == 0:
                 verdict = "MISSED"
             else:
-                verdict = "check error rc=%d" % rc
+                verdict = ("check did not finish (timeout)" if rc == 124 else "check error rc=%d" % rc)
             res[(sid, prop)] = (verdict, secs)
     seeds = sorted(os.listdir(os.path.join(VERIF, "seeded")))
     by_hash = {}
